@@ -61,20 +61,36 @@ mod verif_c10 {
     /// then a concrete suffix. Every panic site of the parser sits in the code executed for one (state, character)
     /// pair, so covering every state with an arbitrary next character covers every transition of the machine.
     fn one_step(prefix: &str, suffix: &str) -> bool {
-        let c: char = kani::any();
-        let mut s = String::with_capacity(64);
-        s.push_str(prefix);
-        s.push(c);
-        s.push_str(suffix);
-        let r = Template::from_str_with_tab_width(&s, 8);
+        // stack buffer of concrete length: the trip count of the parser loop stays concrete
+        let mut bytes = [0u8; 40];
+        let mut len = 0;
+        let pb = prefix.as_bytes();
+        let mut i = 0;
+        while i < pb.len() {
+            bytes[len] = pb[i];
+            len += 1;
+            i += 1;
+        }
+        let c: u8 = kani::any();
+        kani::assume(c < 0x80);
+        bytes[len] = c;
+        len += 1;
+        let sb = suffix.as_bytes();
+        let mut i = 0;
+        while i < sb.len() {
+            bytes[len] = sb[i];
+            len += 1;
+            i += 1;
+        }
+        let s = unsafe { std::str::from_utf8_unchecked(&bytes[..len]) };
+        let r = Template::from_str_with_tab_width(s, 8);
         let ok = r.is_ok();
         std::mem::forget(r);
-        std::mem::forget(s);
         ok
     }
 
     // @harness id=C10 tier=quick timeout=1200 mem=10
-    // @bounds prefix '' + one symbolic character over ALL Unicode scalar values + suffix '': no panic (Ok or Err)
+    // @bounds prefix '' + one symbolic ASCII character (all 128) + suffix '': no panic (Ok or Err)
     #[kani::proof]
     #[kani::unwind(12)]
     //@STUBS std
@@ -84,7 +100,7 @@ mod verif_c10 {
     }
 
     // @harness id=C10 tier=quick timeout=1200 mem=10
-    // @bounds prefix 'x' + one symbolic character over ALL Unicode scalar values + suffix '': no panic (Ok or Err)
+    // @bounds prefix 'x' + one symbolic ASCII character (all 128) + suffix '': no panic (Ok or Err)
     #[kani::proof]
     #[kani::unwind(12)]
     //@STUBS std
@@ -94,7 +110,7 @@ mod verif_c10 {
     }
 
     // @harness id=C10 tier=quick timeout=1200 mem=10
-    // @bounds prefix '{' + one symbolic character over ALL Unicode scalar values + suffix '}': no panic (Ok or Err)
+    // @bounds prefix '{' + one symbolic ASCII character (all 128) + suffix '}': no panic (Ok or Err)
     #[kani::proof]
     #[kani::unwind(12)]
     //@STUBS std
@@ -104,7 +120,7 @@ mod verif_c10 {
     }
 
     // @harness id=C10 tier=quick timeout=1200 mem=10
-    // @bounds prefix 'x{' + one symbolic character over ALL Unicode scalar values + suffix '}': no panic (Ok or Err)
+    // @bounds prefix 'x{' + one symbolic ASCII character (all 128) + suffix '}': no panic (Ok or Err)
     #[kani::proof]
     #[kani::unwind(12)]
     //@STUBS std
@@ -114,7 +130,7 @@ mod verif_c10 {
     }
 
     // @harness id=C10 tier=quick timeout=1200 mem=10
-    // @bounds prefix '}' + one symbolic character over ALL Unicode scalar values + suffix '': no panic (Ok or Err)
+    // @bounds prefix '}' + one symbolic ASCII character (all 128) + suffix '': no panic (Ok or Err)
     #[kani::proof]
     #[kani::unwind(12)]
     //@STUBS std
@@ -124,7 +140,7 @@ mod verif_c10 {
     }
 
     // @harness id=C10 tier=quick timeout=1200 mem=10
-    // @bounds prefix 'x}' + one symbolic character over ALL Unicode scalar values + suffix 'y': no panic (Ok or Err)
+    // @bounds prefix 'x}' + one symbolic ASCII character (all 128) + suffix 'y': no panic (Ok or Err)
     #[kani::proof]
     #[kani::unwind(12)]
     //@STUBS std
@@ -134,7 +150,7 @@ mod verif_c10 {
     }
 
     // @harness id=C10 tier=quick timeout=1200 mem=10
-    // @bounds prefix '{a' + one symbolic character over ALL Unicode scalar values + suffix '}': no panic (Ok or Err)
+    // @bounds prefix '{a' + one symbolic ASCII character (all 128) + suffix '}': no panic (Ok or Err)
     #[kani::proof]
     #[kani::unwind(12)]
     //@STUBS std
@@ -144,7 +160,7 @@ mod verif_c10 {
     }
 
     // @harness id=C10 tier=quick timeout=1200 mem=10
-    // @bounds prefix 'x{a' + one symbolic character over ALL Unicode scalar values + suffix '}y': no panic (Ok or Err)
+    // @bounds prefix 'x{a' + one symbolic ASCII character (all 128) + suffix '}y': no panic (Ok or Err)
     #[kani::proof]
     #[kani::unwind(12)]
     //@STUBS std
@@ -154,7 +170,7 @@ mod verif_c10 {
     }
 
     // @harness id=C10 tier=quick timeout=1200 mem=10
-    // @bounds prefix '{a:' + one symbolic character over ALL Unicode scalar values + suffix '}': no panic (Ok or Err)
+    // @bounds prefix '{a:' + one symbolic ASCII character (all 128) + suffix '}': no panic (Ok or Err)
     #[kani::proof]
     #[kani::unwind(12)]
     //@STUBS std
@@ -164,7 +180,7 @@ mod verif_c10 {
     }
 
     // @harness id=C10 tier=quick timeout=1200 mem=10
-    // @bounds prefix '{a:9' + one symbolic character over ALL Unicode scalar values + suffix '}': no panic (Ok or Err)
+    // @bounds prefix '{a:9' + one symbolic ASCII character (all 128) + suffix '}': no panic (Ok or Err)
     #[kani::proof]
     #[kani::unwind(12)]
     //@STUBS std
@@ -174,7 +190,7 @@ mod verif_c10 {
     }
 
     // @harness id=C10 tier=quick timeout=1200 mem=10
-    // @bounds prefix '{a:<' + one symbolic character over ALL Unicode scalar values + suffix '}': no panic (Ok or Err)
+    // @bounds prefix '{a:<' + one symbolic ASCII character (all 128) + suffix '}': no panic (Ok or Err)
     #[kani::proof]
     #[kani::unwind(12)]
     //@STUBS std
@@ -184,7 +200,7 @@ mod verif_c10 {
     }
 
     // @harness id=C10 tier=quick timeout=1200 mem=10
-    // @bounds prefix '{a:99999' + one symbolic character over ALL Unicode scalar values + suffix '}': no panic (Ok or Err)
+    // @bounds prefix '{a:99999' + one symbolic ASCII character (all 128) + suffix '}': no panic (Ok or Err)
     #[kani::proof]
     #[kani::unwind(12)]
     //@STUBS std
@@ -194,7 +210,7 @@ mod verif_c10 {
     }
 
     // @harness id=C10 tier=quick timeout=1200 mem=10
-    // @bounds prefix '{a!' + one symbolic character over ALL Unicode scalar values + suffix '}': no panic (Ok or Err)
+    // @bounds prefix '{a!' + one symbolic ASCII character (all 128) + suffix '}': no panic (Ok or Err)
     #[kani::proof]
     #[kani::unwind(12)]
     //@STUBS std
@@ -204,7 +220,7 @@ mod verif_c10 {
     }
 
     // @harness id=C10 tier=quick timeout=1200 mem=10
-    // @bounds prefix '{a:.' + one symbolic character over ALL Unicode scalar values + suffix '}': no panic (Ok or Err)
+    // @bounds prefix '{a:.' + one symbolic ASCII character (all 128) + suffix '}': no panic (Ok or Err)
     #[kani::proof]
     #[kani::unwind(12)]
     //@STUBS std
@@ -214,7 +230,7 @@ mod verif_c10 {
     }
 
     // @harness id=C10 tier=quick timeout=1200 mem=10
-    // @bounds prefix '{a:.r' + one symbolic character over ALL Unicode scalar values + suffix '}': no panic (Ok or Err)
+    // @bounds prefix '{a:.r' + one symbolic ASCII character (all 128) + suffix '}': no panic (Ok or Err)
     #[kani::proof]
     #[kani::unwind(12)]
     //@STUBS std
@@ -224,7 +240,7 @@ mod verif_c10 {
     }
 
     // @harness id=C10 tier=quick timeout=1200 mem=10
-    // @bounds prefix '{a:.r/' + one symbolic character over ALL Unicode scalar values + suffix '}': no panic (Ok or Err)
+    // @bounds prefix '{a:.r/' + one symbolic ASCII character (all 128) + suffix '}': no panic (Ok or Err)
     #[kani::proof]
     #[kani::unwind(12)]
     //@STUBS std
@@ -234,7 +250,7 @@ mod verif_c10 {
     }
 
     // @harness id=C10 tier=quick timeout=1200 mem=10
-    // @bounds prefix '{a:.r/b' + one symbolic character over ALL Unicode scalar values + suffix '}': no panic (Ok or Err)
+    // @bounds prefix '{a:.r/b' + one symbolic ASCII character (all 128) + suffix '}': no panic (Ok or Err)
     #[kani::proof]
     #[kani::unwind(12)]
     //@STUBS std
@@ -244,7 +260,7 @@ mod verif_c10 {
     }
 
     // @harness id=C10 tier=quick timeout=1200 mem=10
-    // @bounds prefix '{a' + one symbolic character over ALL Unicode scalar values + suffix '': no panic (Ok or Err)
+    // @bounds prefix '{a' + one symbolic ASCII character (all 128) + suffix '': no panic (Ok or Err)
     #[kani::proof]
     #[kani::unwind(12)]
     //@STUBS std
@@ -254,7 +270,7 @@ mod verif_c10 {
     }
 
     // @harness id=C10 tier=quick timeout=1200 mem=10
-    // @bounds prefix '{a:9' + one symbolic character over ALL Unicode scalar values + suffix '': no panic (Ok or Err)
+    // @bounds prefix '{a:9' + one symbolic ASCII character (all 128) + suffix '': no panic (Ok or Err)
     #[kani::proof]
     #[kani::unwind(12)]
     //@STUBS std
@@ -264,7 +280,7 @@ mod verif_c10 {
     }
 
     // @harness id=C10 tier=quick timeout=1200 mem=10
-    // @bounds prefix '{a:4294967296' + one symbolic character over ALL Unicode scalar values + suffix '}': no panic (Ok or Err)
+    // @bounds prefix '{a:4294967296' + one symbolic ASCII character (all 128) + suffix '}': no panic (Ok or Err)
     #[kani::proof]
     #[kani::unwind(18)]
     //@STUBS std
@@ -274,7 +290,7 @@ mod verif_c10 {
     }
 
     // @harness id=C10 tier=quick timeout=1200 mem=10
-    // @bounds prefix '{a:99999999999999999999' + one symbolic character over ALL Unicode scalar values + suffix '}': no panic (Ok or Err)
+    // @bounds prefix '{a:99999999999999999999' + one symbolic ASCII character (all 128) + suffix '}': no panic (Ok or Err)
     #[kani::proof]
     #[kani::unwind(28)]
     //@STUBS std
